@@ -63,9 +63,9 @@ pub enum Op {
 pub fn action_strategy(rooms: u8) -> impl Strategy<Value = Action> {
     let row = any::<u16>();
     prop_oneof![
-        4 => (0u8..2, 0..rooms, 0u8..12, proptest::option::weighted(0.3, any::<u16>()))
+        4 => (0u8..2, 0..rooms, 0u8..14, proptest::option::weighted(0.3, any::<u16>()))
             .prop_map(|(entity, room, text, parent)| Action::Create { entity, room, text, parent }),
-        4 => (row, 0u8..12).prop_map(|(row, value)| Action::Update { row, value }),
+        4 => (row, 0u8..14).prop_map(|(row, value)| Action::Update { row, value }),
         2 => (row, proptest::option::weighted(0.7, any::<u16>()))
             .prop_map(|(row, target)| Action::SetParent { row, target }),
         2 => (row, any::<u16>()).prop_map(|(row, target)| Action::AddLink { row, target }),
@@ -580,21 +580,36 @@ impl SyncWorld {
                     }
                     let _ = sender.await;
                 } else {
+                    // the concurrent requests are spread over the rooms and both entities so that they touch
+                    // different (room, entity, day) triples
                     let mut futs = vec![];
+                    let base = self.rooms64.iter().position(|r| *r == room).unwrap_or(0);
                     for i in 0..*count {
                         let mut p = Parameters::new();
-                        p.add("room", room.clone()).unwrap();
+                        p.add("room", self.rooms64[(base + i as usize) % self.rooms64.len()].clone()).unwrap();
                         p.add("text", text_for(i)).unwrap();
-                        futs.push(self.peers[pi].mutate(q, Some(p)));
+                        let note = !self.single_entity && i % 2 == 1;
+                        let qq = if note { "mutate { app.Note { room_id:$room text:$text } }" } else { q };
+                        let peer = &self.peers[pi];
+                        futs.push(async move { (note, peer.mutate(qq, Some(p)).await) });
                     }
-                    for r in futures::future::join_all(futs).await {
+                    let mut notes = vec![];
+                    for (note, r) in futures::future::join_all(futs).await {
                         match r {
                             Ok(js) => {
                                 let v: serde_json::Value = serde_json::from_str(&js).unwrap();
-                                ids.push(v["app.Item"]["id"].as_str().unwrap().to_string());
+                                if note {
+                                    notes.push(v["app.Note"]["id"].as_str().unwrap().to_string());
+                                } else {
+                                    ids.push(v["app.Item"]["id"].as_str().unwrap().to_string());
+                                }
                             }
                             Err(e) => result = Err(e),
                         }
+                    }
+                    notes.sort();
+                    for id in notes {
+                        self.rows.push(RowInfo { id, entity: 1, creator: pi });
                     }
                 }
                 ids.sort();
@@ -702,10 +717,10 @@ impl SyncWorld {
     }
 }
 
+pub const WORDS: [&str; 14] = [
+    "alpha", "bravo", "charlie delta", "echo", "foxtrot golf", "hotel", "india", "juliet kilo", "lima",
+    "mike", "november", "oscar papa", "", "  ",
+];
 pub fn text_for(i: u8) -> String {
-    const WORDS: [&str; 12] = [
-        "alpha", "bravo", "charlie delta", "echo", "foxtrot golf", "hotel", "india", "juliet kilo", "lima",
-        "mike", "november", "oscar papa",
-    ];
     WORDS[i as usize % WORDS.len()].to_string()
 }
